@@ -110,6 +110,30 @@ shadow main { assert true }
 """,
 }
 
+# a module that really calls externs: the daemon serves it through a per-session `nano_cop` co-process (launched on the
+# first extern call, stopped at the end of the session); standalone nano_vm calls the same functions in-process
+GOOD["extern"] = """
+fn rev(s: string) -> string {
+    let mut i: int = (- (str_length s) 1)
+    let mut r: string = ""
+    while (>= i 0) {
+        set r (+ r (string_from_char (char_at s i)))
+        set i (- i 1)
+    }
+    return r
+}
+shadow rev { assert true }
+fn main() -> int {
+    let mut i: int = 0
+    while (< i 12) {
+        (println (+ "W6:rev " (rev (+ "extern-" (int_to_string (* i 1234567))))))
+        set i (+ i 1)
+    }
+    return 0
+}
+shadow main { assert true }
+"""
+
 LOOPS = {
     # never terminate by themselves; the daemon's NLVERIF_FUEL budget (hook H1) ends them
     "loop_silent": """
@@ -251,6 +275,22 @@ def crash_signature(text):
 # One lane = one private daemon + its share of the sequences
 # ---------------------------------------------------------------------------------------------------------------
 
+_SHIM_LOCK = threading.Lock()
+
+
+def cop_shim(sc, fl):
+    d = os.path.join(sc.path, "copshim")
+    with _SHIM_LOCK:
+        p = os.path.join(d, "nano_cop")
+        if not os.path.exists(p):
+            os.makedirs(d, exist_ok=True)
+            with open(p + ".tmp", "w") as f:
+                f.write("#!/bin/sh\n[ -n \"$NLV_COP_LOG\" ] && echo launch >> \"$NLV_COP_LOG\"\nexec %s \"$@\"\n" % fl.nano_cop)
+            os.chmod(p + ".tmp", 0o755)
+            os.rename(p + ".tmp", p)
+    return d
+
+
 class Lane:
     def __init__(self, ctx, no, fl, sc, good, loops, hostile, stats):
         self.ctx, self.no, self.fl, self.sc = ctx, no, fl, sc
@@ -263,8 +303,18 @@ class Lane:
                             "hard_rss_limit_mb=3072:detect_stack_use_after_return=0" % self.logbase,
             "UBSAN_OPTIONS": "print_stacktrace=1:halt_on_error=1:exitcode=97:log_path=%s" % self.logbase,
             "NLVERIF_FUEL": str(FUEL),
-            "PATH": fl.bin + os.pathsep + os.environ.get("PATH", "/usr/bin:/bin"),
+            # vm_ffi_cop_start does execlp("nano_cop"): first on PATH is a two-line shim that logs the launch and execs the
+            # flavor's real nano_cop (same pid, same pipes), so launches of the co-process can be counted
+            "PATH": cop_shim(sc, fl) + os.pathsep + fl.bin + os.pathsep + os.environ.get("PATH", "/usr/bin:/bin"),
+            "NLV_COP_LOG": os.path.join(self.dir, "cop_launches.log"),
         })
+
+    def cop_launches(self):
+        try:
+            with open(os.path.join(self.dir, "cop_launches.log"), "rb") as f:
+                return f.read().count(b"\n")
+        except OSError:
+            return 0
 
     def start(self):
         self.ctx.require(self.dm.start(), "could not start a private nano_vmd (asan flavor) in %s: %s"
@@ -286,7 +336,13 @@ class Lane:
         d = self.dir
         if sym.startswith("exec:"):
             g = self.good[sym[5:]]
-            return vc.exec_module(d, g["blob"], 60.0), ("equal", sym[5:])
+            before = self.cop_launches()
+            r = vc.exec_module(d, g["blob"], 60.0)
+            if sym == "exec:extern" and r.exit_code is not None:
+                with _VLOCK:
+                    self.st["extern_sessions"] += 1
+                    self.st["extern_sessions_with_cop_launch"] += 1 if self.cop_launches() > before else 0
+            return r, ("equal", sym[5:])
         if sym == "ping":
             return vc.ping(d, 30.0), ("pong",)
         if sym == "status":
@@ -382,6 +438,8 @@ class Lane:
             return "died"
         if p.timeout or p.exc:
             return "post-sequence PING: exc=%s timeout=%s" % (p.exc, p.timeout)
+        if not p.pong and self.dm.wait_dead(2.0):
+            return "died"                                      # it was dying while we pinged; judged as a death
         if not p.pong:
             _violation(self.ctx, "ping-unanswered|after-sequence", "after the sequence [%s] the daemon (alive) did not answer PING with PONG: %s"
                        % (seqdesc, p.brief()))
@@ -395,6 +453,8 @@ class Lane:
         with _VLOCK:
             self.st["wellformed_compared"] += 1
             self.st["post_checks"] += 1
+        if (r.out, r.err_text(), r.exit_code) != (g["out"], g["err"], g["rc"]) and self.dm.wait_dead(2.0):
+            return "died"
         if (r.out, r.err_text(), r.exit_code) != (g["out"], g["err"], g["rc"]):
             _violation(self.ctx, "wellformed!=standalone|exec|after-sequence",
                        "after the sequence [%s] a well-formed client (%s) got a result different from standalone\n"
@@ -721,6 +781,7 @@ def _run(ctx, fl, sc, lanes):
             loops[name] = info["blob"]
         else:
             good[name] = info
+    ctx.require(struct.unpack_from("<I", good["extern"]["blob"], 8)[0] & 2, "module `extern` lacks NVM_FLAG_NEEDS_EXTERN")
     ctx.require(good["fail"]["rc"] != 0 and b"Runtime error" in good["fail"]["err"], "module `fail` is meant to end in a runtime error")
     ctx.require(len(good["big"]["out"]) >= 65536, "module `big` is meant to print >= 64 KiB")
     hostile = hostile_modules(good["count"]["blob"])
@@ -757,11 +818,22 @@ def _run(ctx, fl, sc, lanes):
         rng = ctx.rng("burst", b)
         bursts.append((100000 + b, tuple(rng.choices(burst_alpha, burst_w)[0] for _ in range(320)), 8))
 
+    # stateful pairs: for every X of the alphabet and every abandoning behaviour Y: fresh daemon, then (X, Y) + post-sequence
+    # checks for each Y.  Process-wide state that one kind of session leaves behind (signal dispositions, descriptors, counters)
+    # shows when a particular later kind of session meets it.
+    pair_y = ["disc_while", "disc_before", "disc_after", "slow_loris_abandon", "loop_print_disc", "trunc_half", "connect_close"]
+    pairs = []
+    for xi, x in enumerate(alphabet):
+        for yi, y in enumerate(pair_y):
+            pairs.append((200000 + xi * len(pair_y) + yi, (x, y), 1))
+
     stats = {"outcomes": {}, "wellformed_compared": 0, "post_checks": 0, "deaths": {}, "restarts": 0,
-             "sequences": 0, "stuck_sessions": 0, "bursts": 0, "burst_sessions": 0, "symbols": {}, "reruns": 0, "distinct": set(), "max_conc": 0}
+             "sequences": 0, "pairs": 0, "extern_sessions": 0, "extern_sessions_with_cop_launch": 0, "stuck_sessions": 0, "bursts": 0, "burst_sessions": 0, "symbols": {}, "reruns": 0, "distinct": set(), "max_conc": 0}
     nl = 6
     work = singles + seqs
-    shares = [work[i::nl] + bursts[i::nl] for i in range(nl)]
+    # pairs are dealt by X (blocks of len(pair_y)) so that one lane restarts its daemon once per X
+    pair_blocks = [pairs[i:i + len(pair_y)] for i in range(0, len(pairs), len(pair_y))]
+    shares = [work[i::nl] + bursts[i::nl] + [p for blk in pair_blocks[i::nl] for p in blk] for i in range(nl)]
     errs = []
 
     def lane_fn(no):
@@ -770,6 +842,10 @@ def _run(ctx, fl, sc, lanes):
             lanes.append(ln)
         ln.start()
         for sno, seq, conc in shares[no]:
+            if sno >= 200000 and (sno - 200000) % len(pair_y) == 0:
+                ln.dm.stop(grace=0.5)                       # fresh daemon for every X of the stateful pairs
+                ln.san_logs()
+                ln.start()
             trouble = ln.run_sequence(sno, seq, conc)
             if trouble:
                 # client-side watchdog / connection trouble is not a verdict: once more on a fresh daemon
@@ -787,10 +863,12 @@ def _run(ctx, fl, sc, lanes):
                     raise core.Inconclusive("client-side watchdog/connection trouble persisted after one re-run of [%s]: %s / %s"
                                             % (" ".join(seq)[:400], trouble, trouble2))
             with _VLOCK:
-                if sno >= 100000:
+                if 100000 <= sno < 200000:
                     stats["bursts"] += 1
                     stats["burst_sessions"] += len(seq)
                     continue
+                if sno >= 200000:
+                    stats["pairs"] += 1
                 stats["sequences"] += 1
                 stats["distinct"].add(seq)
                 stats["max_conc"] = max(stats["max_conc"], conc)
@@ -826,6 +904,10 @@ def _run(ctx, fl, sc, lanes):
     ctx.require(ctx.violations or stats["sequences"] >= len(alphabet) + 20, "too few sequences executed (%d)" % stats["sequences"])
     ctx.require(all(a in stats["symbols"] for a in alphabet), "not every symbol of the alphabet was executed")
     ctx.require(ctx.violations or stats["wellformed_compared"] >= 50, "too few well-formed clients compared (%d)" % stats["wellformed_compared"])
+    ctx.require(ctx.violations or stats["extern_sessions_with_cop_launch"] >= 5,
+                "the extern-calling module was served %d times but a nano_cop launch was seen only %d times: the co-process path "
+                "was not exercised" % (stats["extern_sessions"], stats["extern_sessions_with_cop_launch"]))
+    ctx.require(ctx.violations or stats["pairs"] == len(pairs), "not all stateful pairs were executed (%d of %d)" % (stats["pairs"], len(pairs)))
     ctx.require(ctx.violations or (ist["with_aborts"] >= 2 and ist["control"] >= 1),
                 "idle-timeout family: too few scenarios in which the long sessions outlived the timeout (%s)" % ist)
     ctx.require(ctx.violations or ist["idle_exits_observed"] >= 1,
@@ -836,9 +918,12 @@ def _run(ctx, fl, sc, lanes):
         "distinct_nontrivial": len(stats["distinct"]),
         "rule": "distinct symbol sequences (tuples over the alphabet below, length 1..12) executed against a live daemon and followed "
                 "by the post-sequence checks; every sequence contains at least one client behaviour and is followed by a liveness, "
-                "PING and well-formed-exec check, so none is trivial; the %d single-symbol sequences enumerate the alphabet" % len(alphabet),
+                "PING and well-formed-exec check, so none is trivial; the %d single-symbol sequences enumerate the alphabet, the %d "
+                "stateful pairs enumerate alphabet x abandoning behaviours (each X on a fresh daemon)" % (len(alphabet), len(pairs)),
         "exhaustive": False,
         "sequences": stats["sequences"], "single_symbol_sequences": len(singles), "random_sequences": nseq,
+        "stateful_pairs": stats["pairs"], "stateful_pairs_X": len(alphabet), "stateful_pairs_Y": pair_y,
+        "extern_sessions_served": stats["extern_sessions"], "extern_sessions_with_cop_launch": stats["extern_sessions_with_cop_launch"],
         "bursts_320_sessions_on_8_connections": stats["bursts"], "burst_sessions": stats["burst_sessions"], "burst_alphabet": burst_alpha,
         "alphabet": alphabet, "alphabet_size": len(alphabet), "max_concurrent_connections": stats["max_conc"],
         "per_symbol_counts": dict(sorted(stats["symbols"].items())),
